@@ -9,7 +9,7 @@ use crate::prng::Rng;
 use crate::runner::{self, Flags};
 use std::collections::BTreeSet;
 
-const LARGE_QUICK: u64 = 8;
+const LARGE_QUICK: u64 = 9;
 const LARGE_THOROUGH: u64 = 200;
 
 pub fn def() -> CheckDef {
@@ -22,12 +22,12 @@ pub fn def() -> CheckDef {
         },
         gen,
         run,
-        rule: "every fourth case is a 'sibling churn' (5-9 data-bearing siblings created and removed in drawn orders); the others are seeded histories of mostly successful operations (structure, whole-stream writes, handle writes and set_len, metadata, reopen), <= 40 ops; the first few cases of a run are 'large' histories that force several FAT sectors, a DIFAT sector (V3, > 7.2 MB), several directory and MiniFAT sectors. After every successful mutating op the independent checker imgck judges rules R1-R10 on the byte image and its logical dump must equal the model. Non-trivial: >= 1 successful mutation and >= 1 image check; distinct = distinct (seam log, final image) hash. Every tenth case is a stale-handle scenario (src/stale.rs): a handle kept open across the removal of its own stream and the reuse of its directory slot; after every call through it that returns Ok the image must still pass the checker.",
+        rule: "every fourth case is a 'sibling churn' (5-9 data-bearing siblings created and removed in drawn orders); the others are seeded histories of mostly successful operations (structure, whole-stream writes, handle writes and set_len, metadata, reopen), <= 40 ops; the first few cases of a run are 'large' histories that force several FAT sectors, one, two and three DIFAT sectors (V3: > 7.2, > 15.5, > 23.8 MB; the last one is cut back and regrown), several directory and MiniFAT sectors. After every successful mutating op the independent checker imgck judges rules R1-R10 on the byte image and its logical dump must equal the model. Non-trivial: >= 1 successful mutation and >= 1 image check; distinct = distinct (seam log, final image) hash. Every tenth case is a stale-handle scenario (src/stale.rs): a handle kept open across the removal of its own stream and the reuse of its directory slot; after every call through it that returns Ok the image must still pass the checker.",
         assumptions: &["imgck (sim/src/imgck.rs) is an independent MS-CFB reader written from the specification; R5 for the root entry demands capacity (chain >= size), not equality", "sibling-order rule judged only for names from agreed case-mapping classes"],
         cpu_limit_s: 600,
         fault_kinds: "none (fault-free disk)",
         count_subruns: false,
-        expect_probes: &["fat_sectors>=2", "difat_sector", "dir_sectors>=2", "minifat_sectors>=2", "ministream_sectors>=2", "free_sectors_present", "free_mini_sectors_present", "unallocated_entries_present", "node_with_two_siblings"],
+        expect_probes: &["fat_sectors>=2", "difat_sector", "difat_sectors>=2", "difat_sectors>=3", "dir_sectors>=2", "minifat_sectors>=2", "ministream_sectors>=2", "free_sectors_present", "free_mini_sectors_present", "unallocated_entries_present", "node_with_two_siblings"],
     }
 }
 
@@ -51,7 +51,28 @@ fn large_case(rng: &mut Rng, idx: u64) -> Case {
         c.ops.push(Op::WriteWhole { path: "/b".into(), len: 5000, nonce: 3 });
         return c;
     }
-    if idx == 7 || (idx > 8 && idx % 16 == 7) {
+    if idx == 8 || (idx > 9 && idx % 32 == 8) {
+        // THREE DIFAT sectors in V3: > 109 + 2 * 127 = 363 FAT sectors = > 46464 sectors (~23.8 MB);
+        // then cut back below the second DIFAT sector and grown again (the FAT keeps its sectors,
+        // the chain is re-threaded through free cells spread over all of them)
+        let mut c = Case::new("C03", "large-3-difat", 3);
+        let mut nonce = 8100u32;
+        c.ops.push(Op::WriteWhole { path: "/a".into(), len: 70, nonce: 1 });
+        c.ops.push(Op::HCreate { h: 0, path: "/big".into() });
+        for target in [15_500_000u64, 23_400_000, 23_950_000 + rng.below(300_000), 7_100_000, 24_300_000 + rng.below(100_000)] {
+            c.ops.push(Op::HSetLen { h: 0, n: target });
+            nonce += 1;
+            c.ops.push(Op::HSeek { h: 0, whence: crate::ops::Whence::End, off: -500, uoff: 0 });
+            c.ops.push(Op::HWriteAll { h: 0, len: 500, nonce });
+            c.ops.push(Op::HFlush { h: 0 });
+        }
+        c.ops.push(Op::HDrop { h: 0 });
+        c.ops.push(Op::WriteWhole { path: "/b".into(), len: 4096, nonce: 2 });
+        c.ops.push(Op::Reopen { strict: true });
+        c.ops.push(Op::WriteWhole { path: "/c".into(), len: 100_000, nonce: 3 });
+        return c;
+    }
+    if idx == 7 || (idx > 9 && idx % 16 == 7) {
         // TWO DIFAT sectors in V3: > 109 + 127 FAT sectors = > 30208 sectors (~15.5 MB)
         let mut c = Case::new("C03", "large-2-difat", 3);
         let mut nonce = 8000u32;
